@@ -1580,4 +1580,197 @@ theorem lexStringBody_short_ok (q : Nat) (hq : q ≠ 92) (hq10 : q ≠ 10) : ∀
                 exact ⟨_, e.2, hi', by simp at hp; omega⟩
 
 
+
+/-! ### bytes literals -/
+
+theorem isSimpleEscape_lt (c : Nat) (h : isSimpleEscape c = true) : c < 128 := by
+  unfold isSimpleEscape at h
+  simp only [Bool.or_eq_true, decide_eq_true_eq] at h
+  omega
+
+theorem isOct_lt (c : Nat) (h : isOct c = true) : c < 128 := by
+  unfold isOct at h; simp only [Bool.and_eq_true, decide_eq_true_eq] at h; omega
+
+theorem isHexDigit_lt (c : Nat) (h : isHexDigit c = true) : c < 128 := by
+  unfold isHexDigit isDigitOf at h
+  simp only [Bool.or_eq_true, Bool.and_eq_true, decide_eq_true_eq] at h
+  omega
+
+theorem headIs_cons {p : Nat → Bool} {l : List Nat} (h : headIs p l = true) :
+    ∃ a t, l = a :: t ∧ p a = true := by
+  cases l with
+  | nil => simp [headIs] at h
+  | cons a t => exact ⟨a, t, rfl, by simpa [headIs] using h⟩
+
+/-- a successful escape consumes at least one character, stays inside the text and only skips ASCII -/
+theorem bytesEscape_ok (pos : Nat) (l : List Nat) (n p : Nat) (h : bytesEscape pos l = .ok (n, p)) :
+    1 ≤ n ∧ n ≤ l.length ∧ ∀ x, x ∈ l.take n → x < 128 := by
+  cases l with
+  | nil => simp [bytesEscape] at h
+  | cons c rest =>
+    have one : ∀ (hc : c < 128), 1 ≤ 1 ∧ 1 ≤ (c :: rest).length ∧ ∀ x, x ∈ (c :: rest).take 1 → x < 128 := by
+      intro hc
+      exact ⟨by omega, by simp, by intro x hx; simp at hx; subst hx; exact hc⟩
+    simp only [bytesEscape] at h
+    by_cases h1 : isSimpleEscape c = true
+    · simp only [h1, if_true, Except.ok.injEq, Prod.mk.injEq] at h
+      rw [← h.1]; exact one (isSimpleEscape_lt _ h1)
+    · have h1' : isSimpleEscape c = false := by simpa using h1
+      simp only [h1', Bool.false_eq_true, if_false] at h
+      by_cases h2 : isOct c = true
+      · have hc := isOct_lt _ h2
+        simp only [h2, if_true] at h
+        by_cases h3 : headIs isOct rest = true
+        · obtain ⟨a, t, e, ha⟩ := headIs_cons h3
+          subst e
+          simp only [h3, if_true, List.tail_cons] at h
+          by_cases h4 : headIs isOct t = true
+          · obtain ⟨b, t', e, hb⟩ := headIs_cons h4
+            subst e
+            simp only [h4, if_true, Except.ok.injEq, Prod.mk.injEq] at h
+            rw [← h.1]
+            refine ⟨by omega, by simp, ?_⟩
+            intro x hx; simp at hx
+            rcases hx with e | e | e <;> subst e
+            · exact hc
+            · exact isOct_lt _ ha
+            · exact isOct_lt _ hb
+          · have h4' : headIs isOct t = false := by simpa using h4
+            simp only [h4', Bool.false_eq_true, if_false, Except.ok.injEq, Prod.mk.injEq] at h
+            rw [← h.1]
+            refine ⟨by omega, by simp, ?_⟩
+            intro x hx; simp at hx
+            rcases hx with e | e <;> subst e
+            · exact hc
+            · exact isOct_lt _ ha
+        · have h3' : headIs isOct rest = false := by simpa using h3
+          simp only [h3', Bool.false_eq_true, if_false, Except.ok.injEq, Prod.mk.injEq] at h
+          rw [← h.1]; exact one hc
+      · have h2' : isOct c = false := by simpa using h2
+        simp only [h2', Bool.false_eq_true, if_false] at h
+        by_cases h5 : c = 120
+        · simp only [h5, if_true] at h
+          by_cases h6 : (headIs isHexDigit rest && headIs isHexDigit rest.tail) = true
+          · simp only [h6, if_true, Except.ok.injEq, Prod.mk.injEq] at h
+            simp only [Bool.and_eq_true] at h6
+            obtain ⟨a, t, e, ha⟩ := headIs_cons h6.1
+            subst e
+            obtain ⟨b, t', e, hb⟩ := headIs_cons h6.2
+            simp only [List.tail_cons] at e
+            subst e
+            rw [← h.1]
+            refine ⟨by omega, by simp, ?_⟩
+            intro x hx; simp at hx
+            rcases hx with e | e | e <;> subst e
+            · omega
+            · exact isHexDigit_lt _ ha
+            · exact isHexDigit_lt _ hb
+          · have h6' : (headIs isHexDigit rest && headIs isHexDigit rest.tail) = false := by simpa using h6
+            simp only [h6', Bool.false_eq_true, if_false] at h
+            cases h
+        · simp only [h5, if_false] at h
+          by_cases h7 : c ≥ 128
+          · simp only [h7, if_true] at h; cases h
+          · simp only [h7, if_false, Except.ok.injEq, Prod.mk.injEq] at h
+            rw [← h.1]; exact one (by omega)
+
+/-- the fallback arm is the only place where an escape reports the non-ASCII rule -/
+theorem bytesEscape_nonAscii (pos : Nat) (l : List Nat) (off : Nat)
+    (h : bytesEscape pos l = .error (.nonAsciiBytes, off)) : ∃ c t, l = c :: t ∧ c ≥ 128 := by
+  cases l with
+  | nil => simp [bytesEscape] at h
+  | cons c rest =>
+    refine ⟨c, rest, rfl, ?_⟩
+    simp only [bytesEscape] at h
+    by_cases h1 : isSimpleEscape c = true
+    · simp [h1] at h
+    · have h1' : isSimpleEscape c = false := by simpa using h1
+      simp only [h1', Bool.false_eq_true, if_false] at h
+      by_cases h2 : isOct c = true
+      · simp only [h2, if_true] at h
+        split at h
+        · split at h <;> cases h
+        · cases h
+      · have h2' : isOct c = false := by simpa using h2
+        simp only [h2', Bool.false_eq_true, if_false] at h
+        by_cases h5 : c = 120
+        · simp only [h5, if_true] at h
+          split at h <;> cases h
+        · simp only [h5, if_false] at h
+          by_cases h7 : c ≥ 128
+          · exact h7
+          · simp only [h7, if_false] at h; cases h
+
+
+
+theorem bytesGo_rejects (fuel : Nat) : ∀ (raw : Bool) (pos : Nat) (body : List Nat), body.length < fuel →
+    nonAscii body → bytesGo fuel raw pos body ≠ none := by
+  induction fuel with
+  | zero => intro raw pos body h; omega
+  | succ fuel ih =>
+    intro raw pos body hl hn
+    cases body with
+    | nil => obtain ⟨c, hc, _⟩ := hn; cases hc
+    | cons c rest =>
+      simp only [bytesGo]
+      obtain ⟨x, hx, hx128⟩ := hn
+      split
+      · rename_i hc
+        simp only [Bool.and_eq_true, decide_eq_true_eq] at hc
+        have hxr : x ∈ rest := by
+          rcases List.mem_cons.1 hx with e | e
+          · omega
+          · exact e
+        cases he : bytesEscape (pos + 1) rest with
+        | error e => simp
+        | ok r =>
+          obtain ⟨n, p⟩ := r
+          simp only
+          have ⟨h1, h2, h3⟩ := bytesEscape_ok _ _ _ _ he
+          apply ih
+          · simp only [List.length_drop]; simp at hl; omega
+          · refine ⟨x, ?_, hx128⟩
+            rw [← List.take_append_drop n rest] at hxr
+            rcases List.mem_append.1 hxr with e | e
+            · have := h3 x e; omega
+            · exact e
+      · split
+        · simp
+        · rename_i hc128
+          apply ih
+          · simp at hl; omega
+          · rcases List.mem_cons.1 hx with e | e
+            · omega
+            · exact ⟨x, e, hx128⟩
+
+theorem bytesGo_nonAscii_only (fuel : Nat) : ∀ (raw : Bool) (pos : Nat) (body : List Nat) (off : Nat),
+    bytesGo fuel raw pos body = some (.nonAsciiBytes, off) → nonAscii body := by
+  induction fuel with
+  | zero => intro raw pos body off h; simp [bytesGo] at h
+  | succ fuel ih =>
+    intro raw pos body off h
+    cases body with
+    | nil => simp [bytesGo] at h
+    | cons c rest =>
+      simp only [bytesGo] at h
+      split at h
+      · cases he : bytesEscape (pos + 1) rest with
+        | error e =>
+          rw [he] at h
+          simp only [Option.some.injEq] at h
+          subst h
+          obtain ⟨d, t, e, hd⟩ := bytesEscape_nonAscii _ _ _ he
+          exact ⟨d, by simp [e], hd⟩
+        | ok r =>
+          obtain ⟨n, p⟩ := r
+          rw [he] at h
+          simp only at h
+          obtain ⟨x, hx, hx128⟩ := ih _ _ _ _ h
+          exact ⟨x, List.mem_cons_of_mem _ (List.mem_of_mem_drop hx), hx128⟩
+      · split at h
+        · rename_i hc; exact ⟨c, by simp, hc⟩
+        · obtain ⟨x, hx, hx128⟩ := ih _ _ _ _ h
+          exact ⟨x, List.mem_cons_of_mem _ hx, hx128⟩
+
+
 end PV.C04
